@@ -3,6 +3,7 @@
 //! Sub-commands turn cases (from TLC or from the seeded drivers here) into real inputs, drive
 //! the real code, and log ndjson traces that TLC validates against the specification.
 
+mod crash;
 mod gen;
 mod ledger;
 mod model;
@@ -102,6 +103,28 @@ fn main() {
             for k in 0..n {
                 writeln!(w, "{}", serde_json::to_string(&rates::gen_rates_case(seed, k)).unwrap()).unwrap();
             }
+        }
+        "cache-child" => {
+            crash::child_main(&arg(&args, "--case").expect("--case"), &arg(&args, "--dir").expect("--dir"));
+        }
+        "cache-crash" => {
+            let seed: u64 = arg(&args, "--seed").and_then(|s| s.parse().ok()).unwrap_or(1);
+            let thorough = args.iter().any(|a| a == "--thorough");
+            let out = arg(&args, "--out").expect("--out");
+            let scratch = std::path::PathBuf::from(arg(&args, "--scratch").expect("--scratch"));
+            std::fs::create_dir_all(&scratch).unwrap();
+            let exe = std::env::current_exe().unwrap();
+            let plans = crash::plans(seed, thorough);
+            let recs = par_map(&plans, threads, |p| crash::crash_records(p, &scratch, &exe, &crash::interposer_path()));
+            let mut w = BufWriter::new(std::fs::File::create(out).unwrap());
+            let mut n = 0;
+            for rv in recs {
+                for r in rv {
+                    writeln!(w, "{}", serde_json::to_string(&r).unwrap()).unwrap();
+                    n += 1;
+                }
+            }
+            println!("crash points {n}");
         }
         "rowrates" => {
             let seed: u64 = arg(&args, "--seed").and_then(|s| s.parse().ok()).unwrap_or(1);
